@@ -83,6 +83,16 @@ func c15(r *Report) propMeta {
 	r.LoopVisitsAll("every-expired-request-processed", "x/oracle/keeper.Keeper.ProcessExpiredRequests", "Keeper.DeleteRequest", LoopOpts{MaxOtherExits: 1}) // the reviewed `break` at the first request that is not yet expired
 	r.LoopVisitsAll("every-validator-checked-for-miss", "x/feeds/keeper.Keeper.CalculatePrices", "OracleKeeper.MissReport", LoopOpts{AllowErrReturn: true})
 
+	// the grace-period marker CheckMissReport reads is the block time/height of EVERY current-feeds update (seed C15-5 kept
+	// the old marker when only intervals changed)
+	scf := "x/feeds/keeper.Keeper.SetCurrentFeeds"
+	r.ArgHas("update-marker-is-block-time", scf, "types.NewCurrentFeeds", 1, 1, "^call:Time.Unix", "call:Context.BlockTime")
+	r.ArgHas("update-marker-is-block-height", scf, "types.NewCurrentFeeds", 2, 1, "^call:Context.BlockHeight")
+	r.ctorField("feeds-ctor", ft+".NewCurrentFeeds", "CurrentFeeds.LastUpdateTimestamp", 1)
+	r.ctorField("feeds-ctor", ft+".NewCurrentFeeds", "CurrentFeeds.LastUpdateBlock", 2)
+	r.FieldWriters("update-marker-writers", "CurrentFeeds.LastUpdateTimestamp", nil, []string{ft + ".NewCurrentFeeds"}, []string{"x/feeds"})
+	r.FieldWriters("update-marker-writers", "CurrentFeeds.LastUpdateBlock", nil, []string{ft + ".NewCurrentFeeds"}, []string{"x/feeds"})
+
 	r.Rule("C15.R6", "E1 MissReport callers")
 	r.Callers("callers", miss, []string{pe, cp}, []string{pe, cp})
 	// a validator that reported in time: the report is stored before expiry can look for it
